@@ -600,7 +600,7 @@ def metaLang (c : Ctx) (start : Loc) : Option NVal :=
         (head.children.findSome? fun ch =>
           match ch.elem? with
           | some me =>
-            if c.tagName me == "meta".toStr && c.isHtmlTag he then metaLangScan me.attrs false none else none
+            if c.tagName me == "meta".toStr && c.isHtmlTag me then metaLangScan me.attrs false none else none
           | none => none)
 
 /-- The language of an element as `match_lang` determines it (no memo). -/
